@@ -70,8 +70,10 @@ CHECKS = {
          "and /repo (StringMixIn's definitions and method bodies, names defined by each node class): a str name nobody defines is "
          "delegated to str(x); a name str lacks raises AttributeError without rendering; every explicit magic method has a body that "
          "delegates to str(self) with operands in order; no text behaviour of str is shadowed by object (only 13 object-describing names "
-         "are). Tied to /repo by comparing the model's lookup outcome with real lookup on live objects for every class x name, and by "
-         "an oracle applying every delegated name (25 argument tuples) and every operator to x and to str(x).",
+         "are); a class defines a name of dir(str) itself only where that is documented (__str__, __init__, Wikicode.index/replace, the title "
+         "attributes, Template.__getitem__). Tied to /repo by comparing the model's lookup outcome with real lookup on live objects for every class x name, and by "
+         "an oracle applying every delegated name (25 argument tuples) and every operator to x and to str(x), incl. objects emptied by edits, "
+         "operands of another class with the same rendering, and call - edit - call histories.",
     design_ref="DESIGN.md section 5, C16",
     note="Trusted: the lookup model (class MRO, mixin, object, __getattr__); the generator (introspection + ast.unparse); operators + * % "
          "and 13 object-describing names are outside the claim; bytes(x) is compared with str(x).encode(default). No axioms.",
@@ -192,7 +194,8 @@ CHECKS = {
     text="Theorems (Coq): every property setter of every node class, regenerated from /repo's source on every run as an effect program, "
          "is atomic - on no execution path (any call may raise) does a store to the object precede a possible raise; all setters the "
          "property names are present; over every sequence of value/quotes assignments an attribute whose value has whitespace has "
-         "quotes; the keys can_hide_key accepts are the positive integers without leading zeros (regenerated pattern). Oracle on the implementation: every settable attribute x valid/invalid catalogues x value types x sequences: "
+         "quotes; the keys can_hide_key accepts are the positive integers without leading zeros (regenerated pattern). Exhaustive probes on the "
+         "implementation for hiding keys, Tag.add and the HTMLEntity setters. Oracle on the implementation: every settable attribute x valid/invalid catalogues x value types x sequences: "
          "rejection leaves vars() unchanged, acceptance renders the assigned text and nested markup is navigable, whitespace values "
          "are rendered quoted. 'Renders the assigned text exactly' rests on C01's round trip (validated, not proved).",
     design_ref="DESIGN.md section 5, C18",
